@@ -252,7 +252,10 @@ def m_C02(v):
             else:
                 parts = participants(addrs)
                 owed = per * sum(len(winners_of(d)) for d in parts.values())
-                owed += sum(int(d.get("ut", "0")) - int(d.get("uc", "0")) for d in addrs.values())
+                owed += sum(max(0, int(d.get("ut", "0")) - int(d.get("uc", "0"))) for d in addrs.values())
+                for a_, d in addrs.items():
+                    if int(d.get("uc", "0")) > int(d.get("ut", "0")):
+                        out.append((i, f"C02 winner {a_} has received {d.get('uc')} launchpad tokens, entitlement {d.get('ut')}"))
                 if holding < owed:
                     out.append((i, f"C02 launchpad-token holdings {holding} < owed to winners {owed}"))
     return out
